@@ -125,8 +125,6 @@ const (
 
 // SecInfoAlphabet is the fixed alphabet of SecurityInfo elements the enumerations draw subsets from.
 func SecInfoAlphabet() []SecInfo {
-	ecExplicit := SPKI(DG15Spec{Kind: "ec-explicit"})
-	_ = ecExplicit
 	dhParams := derSeq(derUint(fakeModulus(1024)), derInt(2), derUint(fakeModulus(160)))
 	dhKey := derUint(fakeModulus(1016))
 	return []SecInfo{
